@@ -45,6 +45,8 @@ type faultyStore struct {
 	n         int
 	failUp    func() bool
 	failFetch func() string // "" | "error" | "status" | "truncate"
+	// failURL fixes the fetch outcome of single objects (same keys as failFetch)
+	failURL map[string]string
 }
 
 func (s *faultyStore) put(data []byte, enc string) string {
@@ -69,7 +71,9 @@ func (s *faultyStore) RoundTrip(r *http.Request) (*http.Response, error) {
 	url := r.URL.String()
 	data, ok := s.objects[url]
 	mode := ""
-	if s.failFetch != nil {
+	if m, fixed := s.failURL[url]; fixed {
+		mode = m
+	} else if s.failFetch != nil {
 		mode = s.failFetch()
 	}
 	switch {
@@ -140,7 +144,7 @@ func C41(e *simkern.Env) {
 		// stream and sends the zero-row pointer batch; the server has to fetch,
 		// resolve (and, for int32 inputs, cast) it on that turn
 		extInputs := storage && tp.Bool(1, 2)
-		extIn := func(b arrow.RecordBatch) arrow.RecordBatch {
+		extIn := func(_ *pipew.Op, _ int, b arrow.RecordBatch) arrow.RecordBatch {
 			if !extInputs || b.NumRows() == 0 || b.NumCols() == 0 || !tp.Bool(2, 3) {
 				return b
 			}
